@@ -1,5 +1,6 @@
 import NanoVerif.Proofs.Transformed
 import NanoVerif.Proofs.Decompose
+import NanoVerif.Proofs.TrFixed
 /-
 C16 — Specialised transform paints denote exactly the affine they replace.
 ONLY property theorems, their non-vacuity examples and counter-statements live here.
